@@ -357,6 +357,45 @@ def d6(rep, src):
                 rep.violation("D6", key, "%s folds the case of `%s.value` with .%s() without having tested `%s.quote_style`: a quoted name loses its case" % (f.qual, base, n["m"], base), "src/%s:%d" % (f.file, n["l"]))
 
 
+def d7(rep, src):
+    """A table described by its path (or by its name) gets its other designation from it, not from the process-global counter."""
+    from .core import find, walk, show, path_of, pat_binds
+
+    rep.rule(
+        "D7",
+        "relation/builder.rs TableBuilder: `path(p)` gives the table a name derived from p when it has none, and `name(n)` a path derived from n when it has none "
+        "(an assignment to / `get_or_insert_with` on the other field whose value is made from the parameter): `try_build` falls back to `namer::new_name(\"table\")`, the global counter, only for a table with neither",
+        floor=2,
+        necessary="a table built from its path alone is named table_0, table_1 .. in the order of construction in the process; the name is part of the Table value and of its hash, so every generated map_ / join_ / CTE name "
+        "of the same SQL over the same catalog differs from one compilation to the next",
+    )
+    for meth, other in (("path", "name"), ("name", "path")):
+        fs = [f for f in src.find_fns(name=meth, file="relation/builder.rs") if (f.self_ty or "").startswith("TableBuilder") and f.body and not f.test]
+        key = "TableBuilder::%s@%s" % (meth, other)
+        if len(fs) != 1:
+            rep.undecidable("D7", key, "expected one TableBuilder::%s, found %d" % (meth, len(fs)), "src/relation/builder.rs")
+            continue
+        f = fs[0]
+        pn = [p["pat"]["name"] for p in f.params if not p.get("self") and p["pat"]["k"] == "ident"]
+        derived = set(pn)
+        for l in find(f.body, "let"):  # `let path: Identifier = path.into();`
+            if l.get("init") is not None and any(x["k"] == "path" and x["segs"][0] in derived for x in walk(l["init"])):
+                derived |= set(pat_binds(l["pat"]))
+        made_from_param = lambda e: any(x["k"] == "path" and len(x["segs"]) == 1 and x["segs"][0] in derived for x in walk(e))
+        target = "self." + other
+        hits = []
+        for x in walk(f.body):
+            if x["k"] == "assign" and show(x["lhs"], 0).replace(" ", "") == target and made_from_param(x["rhs"]):
+                hits.append(x)
+            if x["k"] == "mcall" and x["m"] in ("get_or_insert_with", "get_or_insert", "insert", "replace") and show(x["recv"], 0).replace(" ", "") == target and x["args"] and made_from_param(x["args"][0]):
+                hits.append(x)
+            if x["k"] == "struct" and any(fl["name"] == other and made_from_param(fl["e"]) for fl in x.get("fields", [])):
+                hits.append(x)
+        rep.instance("D7", key, {"method": meth, "sets": other, "from_parameter": bool(hits)})
+        if not hits:
+            rep.violation("D7", key, "TableBuilder::%s does not derive the table's %s from its argument: a table given by its %s alone is named by the global counter" % (meth, other, meth), f.where())
+
+
 def run(rep):
     rep.explanation = (
         "Inventory by reachability over the instantiation-aware call graph of crate qrlew (rustc MIR, cargo +nightly check --lib). "
@@ -553,4 +592,5 @@ def run(rep):
     _c08.e19(rep, _src)
     _c08.e14(rep, _src)
     d6(rep, _src)
+    d7(rep, _src)
     rep.extra["observations_rewrite_scope"] = obs[:60]
